@@ -33,13 +33,18 @@ func (b *Bind) GetSequenceID() uint32 {
 }
 
 func (b *Bind) GetCommand() sms.ICommander {
+	// a Bind carries one of three commands; report the one in the header
+	switch b.Header.ID {
+	case smpp.BIND_RECEIVER, smpp.BIND_TRANSMITTER:
+		return b.Header.ID
+	}
 	return smpp.BIND_TRANSCEIVER
 }
 
 func (b *Bind) GenEmptyResponse() sms.PDU {
 	return &BindResp{
 		Header: smpp.Header{
-			ID:       smpp.BIND_TRANSCEIVER_RESP,
+			ID:       b.GetCommand().(smpp.CMDId) | smpp.GENERIC_NACK, // response bit
 			Sequence: b.Header.Sequence,
 		},
 	}
@@ -116,6 +121,10 @@ func (b *BindResp) GetSequenceID() uint32 {
 }
 
 func (b *BindResp) GetCommand() sms.ICommander {
+	switch b.Header.ID {
+	case smpp.BIND_RECEIVER_RESP, smpp.BIND_TRANSMITTER_RESP:
+		return b.Header.ID
+	}
 	return smpp.BIND_TRANSCEIVER_RESP
 }
 
